@@ -90,8 +90,15 @@ def one(ctx, rng, k):
                 probs.append(f'trace header {i} differs: {dict(list(d.items())[:3])}')
                 break
     if not probs:
-        with SgzReader(sgz) as r:
-            dec = np.stack([np.asarray(r.get_trace(i)) for i in range(r.tracecount)])
+        # decoded values from the specification decoder (independent of the read path the exporter uses)
+        vol = spec.decode_volume(sgz)
+        if kind == '2d':
+            dec = vol
+        elif kind == 'regular':
+            dec = vol.reshape(-1, vol.shape[2])
+        else:
+            m = spec.read_footer_arrays(sgz)[189] != 0
+            dec = vol.reshape(-1, vol.shape[2])[m]
         if dec.shape != out['traces'].shape:
             probs.append(f"exported traces {out['traces'].shape} vs decoded {dec.shape}")
         elif fmt == 5:
